@@ -201,7 +201,16 @@ func c16Fill(d ivg.Destination, fill int, indirect bool, s float32) {
 		if fill == 3 {
 			spread, shape = 2, 1
 		}
-		d.SetCReg(0, false, ivg.RGBAColor(color.RGBA{3, 10 | spread<<6, 10 | 0x80 | shape<<6, 0}))
+		gv := ivg.RGBAColor(color.RGBA{3, 10 | spread<<6, 10 | 0x80 | shape<<6, 0})
+		if indirect {
+			// the gradient value reaches CREG[0] through a register reference
+			d.SetCSel(30)
+			d.SetCReg(0, false, gv)
+			d.SetCSel(0)
+			d.SetCReg(0, false, ivg.CRegColor(30))
+		} else {
+			d.SetCReg(0, false, gv)
+		}
 	}
 }
 
@@ -310,7 +319,7 @@ func init() {
 		ID:    "C16",
 		Level: "exploration",
 		Rule: "engine P over (graphic x destination x rectangle x transformation): every one-path program over 10 shapes (L, l, H/V, Q+T, q+t, C+S, c+s, A, a, sub-paths via Y and y) x 7 fills (a path gated by a level-of-detail range, opaque via palette index, translucent via a rounding-sensitive blend, linear-pad gradient, radial-reflect gradient, initial content of a colour register, palette index and register reference with high bits set after the like-numbered register was overwritten) x sizes {1,7,64,512,513,600,40x100,100x40,511x3} (thorough: every n x n for n <= 17, 510..514 around the threshold incl. 511x513 / 513x511, 2x3, 3x514, 1024x16, 256x700, 700x256) x {RGBA, Alpha} x {Src, Over}, and every ordered pair of one-path programs (4900) at sizes 64 and 7, rendered with raster/vec. " +
-			"Relations, pixel buffers byte for byte: (a) rectangle at offset (7,9), and (o) at offset (0,0), inside a larger image with sentinel margin == image of its own, margin untouched; (b) viewBox, coordinates and radii x 2^k, gradient matrix linear part x 2^-k, k in {-5,-1,+2,+8} (thorough: 14 exponents in -8..8 for sizes <= 100) == original; (c) colours via palette index / register reference / blend == direct colours; (d) [P1,P2] with operator Src == P1 with Src then P2 with Over by a fresh Renderer; (r) relation (c) on a Renderer that rendered another graphic with the same palette before; (e) relation (c) between the two graphics in byte form (Encoder -> Decode -> Renderer); (t) the graphic at two places of one image through one Renderer and one rasteriser == image of its own, twice. " +
+			"Relations, pixel buffers byte for byte: (a) rectangle at offset (7,9), and (o) at offset (0,0), inside a larger image with sentinel margin == image of its own, margin untouched; (b) viewBox, coordinates and radii x 2^k, gradient matrix linear part x 2^-k, k in {-5,-1,+2,+8} (thorough: 14 exponents in -8..8 for sizes <= 100) == original; (c) colours via palette index / register reference / blend == direct colours; (d) [P1,P2] with operator Src == P1 with Src then P2 with Over by a fresh Renderer; (r) relation (c) on a Renderer that rendered another graphic with the same palette before; (e) relation (c) between the two graphics in byte form (Encoder -> Decode -> Renderer); (t) the graphic at two places of one image through one Renderer and one rasteriser == image of its own, twice; (s) a rectangle inside an image whose bounds start at (40,30), rasteriser as a plain literal == image of its own. " +
 			"distinct = hash of the rendered pixels; non-trivial = render that produced at least one non-zero and one zero pixel",
 		Assumptions: []string{"golang.org/x/image/vector is a trusted dependency", "every float operation of the renderer commutes exactly with power-of-two scaling in the absence of overflow/underflow (the exponent set avoids both)"},
 		Units:       func(tier string) int { return n1 + n1 },
@@ -329,6 +338,7 @@ func init() {
 							c16Check(w, &c16Case{Prog: p, W: sz[0], H: sz[1], Alpha: alpha, Op: op, Rel: "o"})
 							if sz[0] <= 100 {
 								c16Check(w, &c16Case{Prog: p, W: sz[0], H: sz[1], Alpha: alpha, Op: op, Rel: "t"})
+								c16Check(w, &c16Case{Prog: p, W: sz[0], H: sz[1], Alpha: alpha, Op: op, Rel: "s"})
 							}
 							c16Check(w, &c16Case{Prog: p, W: sz[0], H: sz[1], Alpha: alpha, Op: op, Rel: "c"})
 							c16Check(w, &c16Case{Prog: p, W: sz[0], H: sz[1], Alpha: alpha, Op: op, Rel: "r"})
@@ -452,6 +462,63 @@ func c16Check(w *mc.W, cs *c16Case) {
 						fail("offset:outside-modified", fmt.Sprintf("pixel (%d,%d) outside the target rectangle was modified", x, y))
 						return
 					}
+				}
+			}
+		}
+	case "s":
+		// the destination image's bounds do not start at the origin (as a sub-image's do not), and
+		// the rasteriser is the plain literal over it
+		ib := image.Rect(40, 30, 40+cs.W+9, 30+cs.H+7)
+		var big draw.Image
+		var bigPix *[]uint8
+		if cs.Alpha {
+			im := image.NewAlpha(ib)
+			big, bigPix = im, &im.Pix
+		} else {
+			im := image.NewRGBA(ib)
+			big, bigPix = im, &im.Pix
+		}
+		for i := range *bigPix {
+			(*bigPix)[i] = 0xab
+		}
+		rect := image.Rect(43, 34, 43+cs.W, 34+cs.H)
+		if op != draw.Src || p.gated() {
+			draw.Draw(big, rect, image.Transparent, image.Point{}, draw.Src)
+		}
+		{
+			vz := &vec.Rasterizer{Dst: big}
+			vz.DrawOp = op
+			var z render.Renderer
+			z.SetRasterizer(vz, rect)
+			p.emit(&z, 0, false, 0, n, true)
+		}
+		for y := ib.Min.Y; y < ib.Max.Y; y++ {
+			for x := ib.Min.X; x < ib.Max.X; x++ {
+				var got, want color.RGBA
+				in := image.Pt(x, y).In(rect)
+				if cs.Alpha {
+					a := big.(*image.Alpha).AlphaAt(x, y).A
+					got = color.RGBA{a, a, a, a}
+					if in {
+						b := base.(*image.Alpha).AlphaAt(x-rect.Min.X, y-rect.Min.Y).A
+						want = color.RGBA{b, b, b, b}
+					}
+				} else {
+					got = big.(*image.RGBA).RGBAAt(x, y)
+					if in {
+						want = base.(*image.RGBA).RGBAAt(x-rect.Min.X, y-rect.Min.Y)
+					}
+				}
+				if !in {
+					want = color.RGBA{0xab, 0xab, 0xab, 0xab}
+				}
+				if got != want {
+					if in {
+						fail("shifted-image:pixels-differ", fmt.Sprintf("pixel (%d,%d) of the rectangle inside an image with bounds %v is %v, image of its own has %v", x-rect.Min.X, y-rect.Min.Y, ib, got, want))
+					} else {
+						fail("shifted-image:outside-modified", fmt.Sprintf("pixel (%d,%d) outside the target rectangle was modified (image bounds %v)", x, y, ib))
+					}
+					return
 				}
 			}
 		}
